@@ -53,6 +53,7 @@ type soloWorld struct {
 	rcands    []Candidate
 	problems  []vtProblem
 	contact   func()
+	refills   int // how often the local candidates were released without a Restart (Failed)
 	cmu       sync.Mutex
 	txCounter uint64
 	// peerMsgs keeps every message the scripted peer has sent, so that true duplicates can be replayed
@@ -210,10 +211,13 @@ func newSoloWorld(raw json.RawMessage) *soloWorld {
 }
 
 func (sw *soloWorld) addLocal(i int) {
-	ip, port := fmt.Sprintf("10.0.0.%d", i+1), 1000+i+100*sw.x.gen
+	ip, port := fmt.Sprintf("10.0.0.%d", i+1), 1000+i+100*sw.x.gen+10*sw.refills
 	name := fmt.Sprintf("a%d", i)
 	if sw.x.gen > 0 {
 		name += fmt.Sprintf(".g%d", sw.x.gen)
+	}
+	if sw.refills > 0 { // local candidates added again after Failed (same generation): fresh sockets
+		name += fmt.Sprintf(".f%d", sw.refills)
 	}
 	sock := sw.newSock(name, ip, port, "")
 	var prio uint32
